@@ -204,8 +204,8 @@ class HSMCertificateV2ElementSGXAttestationKey(HSMCertificateV2Element):
         return {
             "name": self.name,
             "type": "sgx_attestation_key",
-            "message": self.message.get_raw_data().hex(),
-            "key": self.key.to_string("uncompressed").hex(),
+            "message": self._message.hex(),
+            "key": self._key.hex(),
             "auth_data": self.auth_data,
             "signature": self.signature,
             "signed_by": self.signed_by,
